@@ -219,10 +219,14 @@ class Prop(PropBase):
             src = ('shortcut-parser_args' if case.get('shortcut') and case.get('sc_parser_args') else '') + \
                   ('+args_in' if case.get('args_in') else '')
             tags.append('parser-args-from:' + (src or 'none'))
-            if any(o[0] == 'InjectIn' and o[1] == 'argList' for o in L.pipeline_ops(case, 'main')):
+            if L.in_model(case) and any(o[0] == 'InjectIn' and o[1] == 'argList' for o in L.pipeline_ops(case, 'main')):
                 tags.append('argList-is-the-shortcuts-list')
         if case.get('threads'):
             tags.append('threaded')
+        if case.get('vars_yaml'):
+            tags.append('config-vars-built-by-ruamel')
+        if any(L.has_set(v) for _, v in case['vars']):
+            tags.append('config-var-is-a-yaml-set')
         if not L.in_model(case):
             tags.append('monitor-only')
         else:
